@@ -28,6 +28,10 @@ type RTCase struct {
 	// 2 a local one with the sampled bit flipped and another tracestate,
 	// 3 a remote one with the sampled bit flipped and no tracestate.
 	PriorSame int `json:"prior_same,omitempty"`
+	// Dirty: the carrier is not brand new when Inject runs: 1 it already holds
+	// a stale traceparent and tracestate (forwarded headers), 2 another span
+	// context was injected into it just before. Inject replaces the headers.
+	Dirty int `json:"dirty,omitempty"`
 }
 
 func genNonZeroID(n int) *rapid.Generator[string] {
@@ -69,6 +73,7 @@ func genRT(t *rapid.T) RTCase {
 	c.Carrier = rapid.SampledFrom([]string{"map", "map", "header"}).Draw(t, "carrier")
 	c.Prior = rapid.Bool().Draw(t, "prior")
 	c.PriorSame = rapid.SampledFrom([]int{0, 0, 0, 1, 2, 3}).Draw(t, "prior_same")
+	c.Dirty = rapid.SampledFrom([]int{0, 0, 0, 1, 2}).Draw(t, "dirty_carrier")
 	return c
 }
 
@@ -170,6 +175,24 @@ func runRT(c RTCase) ([]vk.Violation, vk.Info) {
 	})
 	prop := propagation.TraceContext{}
 	carrier := newCarrier(c.Carrier)
+	// (A span context WITHOUT tracestate makes Inject write no tracestate
+	// header at all, so a stale one would stay: the stale tracestate is only
+	// put there when the injected context has one of its own to replace it.)
+	switch c.Dirty {
+	case 1:
+		carrier.Set("traceparent", "00-0af7651916cd43dd8448eb211c80319c-b7ad6b7169203331-01")
+		if len(c.Members) > 0 {
+			carrier.Set("tracestate", "stale=1,verif=old")
+		}
+	case 2:
+		stale := priorSC
+		if len(c.Members) > 0 {
+			staleTS, _ := trace.ParseTraceState("stale=1")
+			stale = stale.WithTraceState(staleTS)
+		}
+		prop.Inject(trace.ContextWithSpanContext(context.Background(), stale), carrier)
+	}
+	info.ClassIf(c.Dirty != 0, "carrier_already_holds_trace_headers")
 	prop.Inject(trace.ContextWithSpanContext(context.Background(), sc), carrier)
 
 	wantTP := refFormatTraceparent(tid, sid, sampled)
